@@ -2,7 +2,7 @@ SPECIFICATION Spec
 CONSTANTS
   Vals <- MCVals
   MaxSize = @MAXSIZE@
-  MaxScale = @MAXSCALE@
+  MaxScale <- MCMaxScale
   Cumulative = @CUMULATIVE@
   FixD1 = @FIXD1@
   MaxSteps = @MAXSTEPS@
